@@ -712,7 +712,8 @@ class Network:
             async with atimeout(timeout):
                 _, response = await future
         except TimeoutError as exc:
-            future.set_exception(exc)
+            if not future.done():
+                future.set_exception(exc)
             raise
 
         return response
@@ -752,7 +753,8 @@ class Network:
             async with atimeout(timeout):
                 _, response = await future
         except TimeoutError as exc:
-            future.set_exception(exc)
+            if not future.done():
+                future.set_exception(exc)
             raise
 
         return response
@@ -1161,6 +1163,9 @@ class Network:
 
         # Complete expected response futures
         for expected_response in self._expected_response_futures:
+            if expected_response.done():
+                continue
+
             if expected_response.matches(connection, message):
                 expected_response.set_result((connection, message, ))
 
